@@ -200,7 +200,7 @@ def core_match_programs(ctx):
     out.append("let r = match null { 1 => 2 };\nlet s = match true { 1 => 2, _ => 3 };\nlet t = match \"a\" { 1..3 => 2 };\n")
     for k in range(ctx.scale(600, 20000)):
         src = c02.core_program(ctx.rng, typed=(k % 2 == 0))
-        if "match" in src:
+        if "match" in src or "break" in src or "continue" in src:
             out.append(src)
     return out
 
@@ -214,7 +214,7 @@ def cases(ctx):
     lines = lang_lines(ctx, srcs)
     out = [Case(l, (t,), extra={"src": s}) for l, (t, s) in zip(lines, progs)]
     # translation validation: Bcv (the verified bytecode verifier) on the real bytecode of every program; the VM model runs it
-    vl = vmrun_lines(ctx, srcs)
+    vl = vmrun_lines(ctx, srcs, static=[t == "generated" for t, _ in progs])
     out += [Case(l, (t, "vm"), extra={"src": s}) for l, (t, s) in zip(vl, progs)]
     csrcs = core_match_programs(ctx)
     cl = lang_lines(ctx, csrcs, op="core")
